@@ -211,6 +211,10 @@ func zeroOf(t types.Type, commaOk bool) any {
 			return constant.MakeString("")
 		}
 	}
+	switch t.Underlying().(type) {
+	case *types.Pointer, *types.Signature, *types.Map, *types.Slice, *types.Interface, *types.Chan:
+		return iNil{}
+	}
 	return nil
 }
 
